@@ -217,16 +217,13 @@ Section VS.
   Lemma wrap_u64_nonneg v : 0 <= wrap_u 64 v.
   Proof. unfold wrap_u. apply Z.mod_pos_bound. reflexivity. Qed.
 
-  Lemma tp_copy_index : tp cap vs_copy_index.
+  Lemma tp_copy_index ped : tp cap (vs_copy_index ped).
   Proof.
-    intros s [Hl Hn]. unfold vs_copy_index, checked_sub.
-    destruct (vlen s <? 1) eqn:E1; [eexists _, _; split; [reflexivity|split; assumption]|].
-    destruct (zget_some (vals s) (vlen s - 1) ltac:(lia)) as [v ->].
-    pose proof (wrap_u64_nonneg v) as Hw.
-    destruct (vlen s - 1 <? wrap_u 64 v) eqn:E2; [eexists _, _; split; [reflexivity|split; assumption]|].
-    destruct (zget_some (vals s) (vlen s - 1 - wrap_u 64 v) ltac:(lia)) as [e ->].
-    destruct (zset_some (vals s) (vlen s - 1) e ltac:(lia)) as [vs' Hs]. rewrite Hs.
-    apply zset_inv in Hs. eexists _, _. split; [reflexivity|]. split; cbn; lia.
+    unfold vs_copy_index. apply tp_bind; [apply tp_pop|]. intros index s H. pose proof H as [Hl Hn].
+    destruct ((index <=? 0) || (vlen s <? index)) eqn:E.
+    - destruct ped; [eexists _, _; split; [reflexivity|exact H]|apply tp_push; exact H].
+    - unfold sub_usize. destruct (vlen s <? index) eqn:E1; [lia|].
+      destruct (zget_some (vals s) (vlen s - index) ltac:(lia)) as [e ->]. apply tp_push; exact H.
   Qed.
 
   Lemma copy_within_some l lo hi d : 0 <= lo <= hi -> hi <= zlen l -> 0 <= d -> d + (hi - lo) <= zlen l ->
@@ -238,22 +235,20 @@ Section VS.
     rewrite !app_length, !firstn_length, !skipn_length. lia.
   Qed.
 
-  Lemma tp_move_index : tp cap vs_move_index.
+  Lemma tp_move_index ped : tp cap (vs_move_index ped).
   Proof.
-    intros s [Hl Hn]. unfold vs_move_index, checked_sub.
-    destruct (vlen s <? 1) eqn:E1; [eexists _, _; split; [reflexivity|split; assumption]|].
-    destruct (zget_some (vals s) (vlen s - 1) ltac:(lia)) as [v ->].
-    pose proof (wrap_u64_nonneg v) as Hw.
-    destruct (vlen s - 1 <? wrap_u 64 v) eqn:E2; [eexists _, _; split; [reflexivity|split; assumption]|].
-    destruct (vlen s - 1 <? 1) eqn:E3; [eexists _, _; split; [reflexivity|split; assumption]|].
-    destruct (zget_some (vals s) (vlen s - 1 - wrap_u 64 v) ltac:(lia)) as [e ->].
-    unfold add_usize, isize_max, usize_max in *.
-    destruct (18446744073709551615 <? vlen s - 1 - wrap_u 64 v + 1) eqn:E4; [lia|].
-    destruct (copy_within_some (vals s) (vlen s - 1 - wrap_u 64 v + 1) (vlen s) (vlen s - 1 - wrap_u 64 v)
-                ltac:(lia) ltac:(lia) ltac:(lia) ltac:(lia)) as (vs1 & -> & Hl1).
-    destruct (zset_some vs1 (vlen s - 1 - 1) e ltac:(lia)) as [vs2 Hs]. rewrite Hs.
-    apply zset_inv in Hs. unfold sub_usize. rewrite E1.
-    eexists _, _. split; [reflexivity|]. split; cbn; lia.
+    unfold vs_move_index. apply tp_bind; [apply tp_pop|]. intros index s H. pose proof H as [Hl Hn].
+    destruct ((index <=? 0) || (vlen s <? index)) eqn:E.
+    - destruct ped; eexists _, _; (split; [reflexivity|exact H]).
+    - unfold sub_usize. destruct (vlen s <? index) eqn:E1; [lia|].
+      destruct (zget_some (vals s) (vlen s - index) ltac:(lia)) as [e ->].
+      unfold add_usize, isize_max, usize_max in *.
+      destruct (18446744073709551615 <? vlen s - index + 1) eqn:E4; [lia|].
+      destruct (copy_within_some (vals s) (vlen s - index + 1) (vlen s) (vlen s - index)
+                  ltac:(lia) ltac:(lia) ltac:(lia) ltac:(lia)) as (vs1 & -> & Hl1).
+      destruct (vlen s <? 1) eqn:E5; [lia|].
+      destruct (zset_some vs1 (vlen s - 1) e ltac:(lia)) as [vs2 Hs]. rewrite Hs.
+      apply zset_inv in Hs. eexists _, _. split; [reflexivity|]. split; cbn; lia.
   Qed.
 
   (* admissible operations: pushed operand lists are real slices *)
